@@ -261,6 +261,16 @@ def rule_split_mass_agreement(ctx, rule='R03.7'):
                     node = node['inner'][-1]
                 if cur:
                     out.setdefault(cur, []).append(node)
+        # the same selection written as an if / else-if chain over `<coordinates> == CONSTANT`
+        for ifs in walk(cfront.body(fn)):
+            if ifs.get('kind') != 'IfStmt':
+                continue
+            c = strip(ifs['inner'][0])
+            if c.get('kind') == 'BinaryOperator' and c.get('opcode') == '==':
+                for side in c['inner']:
+                    side = strip(side, casts=True)
+                    if side.get('kind') == 'DeclRefExpr' and side.get('referencedDecl', {}).get('kind') == 'EnumConstantDecl' and 'COORDINATES' in side['referencedDecl']['name']:
+                        out.setdefault(side['referencedDecl']['name'], []).append(ifs['inner'][1])
         return out
 
     def canon(txt, L):
